@@ -1,4 +1,4 @@
-import Amgcl.Proofs.EnergyBridge
+import Amgcl.Proofs.BridgeVec
 import Amgcl.Properties.C03
 /-!
 # Bridge, part 1: the dense denotation `matOf` of the sparse kernels used by `Amg.build`
@@ -9,7 +9,6 @@ import Amgcl.Properties.C03
 * `matOf_galerkin`          — `matOf (galerkin nt A P R) = matOf R * matOf A * matOf P` for every thread count
                               (`C03.galerkin_get_any`);
 * `matOf_scale`, `matOf_scaledGalerkin` — `matOf (scaledGalerkin nt s A P R) = s • (matOf R * matOf A * matOf P)`;
-* `vecOf_ofFn`, `vecOf_ext` — arrays of the right length are determined by their denotation.
 -/
 set_option linter.unusedSectionVars false
 namespace Amgcl.Energy.Bridge
@@ -21,8 +20,6 @@ variable {K : Type} [Field K] [DecidableEq K]
 theorem colsLt_of_wf {A : CRS K} (hA : A.WF) : ColsLt A A.ncols := fun i _ h => K2.row_col_lt hA i h
 
 theorem colsLt_of_wf' {A : CRS K} (hA : A.WF) {m : Nat} (hm : A.ncols = m) : ColsLt A m := hm ▸ colsLt_of_wf hA
-
-@[simp] theorem matOf_apply (A : CRS K) (n m : Nat) (i : Fin n) (j : Fin m) : matOf A n m i j = A.get i.val j.val := rfl
 
 /-- `sort_rows` keeps the denoted matrix -/
 theorem matOf_sortRows (A : CRS K) (n m : Nat) : matOf (sortRows A) n m = matOf A n m := by
@@ -56,30 +53,5 @@ theorem matOf_scaledGalerkin (nt : Nat) (s : K) (A P R : CRS K) {n m : Nat} (hA 
     matOf (scaledGalerkin nt s A P R) m m = s • (matOf R m n * matOf A n n * matOf P n m) := by
   unfold scaledGalerkin
   rw [matOf_scale, matOf_galerkin nt A P R hA hP hR hAn hAc hRn hRc]
-
-omit [DecidableEq K] in
-/-- reading back an array built from a function -/
-theorem vecOf_ofFn {n : Nat} (g : Fin n → K) : vecOf n (Array.ofFn g) = g := by
-  funext i
-  simp [vecOf, getD_ofFn_lt _ _ _ i.isLt]
-
-omit [DecidableEq K] in
-/-- arrays of length `n` with the same denotation are equal -/
-theorem vecOf_ext {n : Nat} {x y : Vec K} (hx : x.size = n) (hy : y.size = n) (h : vecOf n x = vecOf n y) : x = y := by
-  apply Array.ext (by rw [hx, hy])
-  intro i h1 h2
-  have := congrFun h ⟨i, by omega⟩
-  simpa [vecOf, Array.getD, h1, h2] using this
-
-omit [DecidableEq K] in
-theorem vecOf_apply {n : Nat} (x : Vec K) (i : Fin n) : vecOf n x i = x.getD i.val 0 := rfl
-
-omit [DecidableEq K] in
-/-- the denotation of a linear combination -/
-theorem vecOf_vlin {n : Nat} (a b : K) (x y : Vec K) (hx : x.size = n) (hy : y.size = n) :
-    vecOf n (Relax.vlin a x b y) = a • vecOf n x + b • vecOf n y := by
-  funext i
-  simp only [vecOf, Pi.add_apply, Pi.smul_apply, smul_eq_mul]
-  rw [vlin_getD a b x y i.val (by rw [hx, hy])]
 
 end Amgcl.Energy.Bridge
